@@ -387,3 +387,89 @@ def _(c):
     lp.invariant('all((ord(text[k]) >= 97 and ord(text[k]) <= 122) or (ord(text[k]) >= 65 and ord(text[k]) <= 90) for k in range(i, len(text)))', 'letters_behind')
     lp.decreases('i')
     c.native_gen(lambda rnd: (rnd.choice(['nil', '', 'a', 'ZZ', '5', '5a', '12ab', 'a1', '5é', '-1b', '*', '*a', '1.5', 'x5y']),))
+
+
+@contract('core.matcher._parse_float_matcher')
+def _(c):
+    c.prop('C18')
+    c.types(text='str').returns(M_)
+    c.raises('RuntimeError', when=None, exact=False)
+    c.ensures('fresh(result)')
+    c.modifies('new')
+    c.native_gen(lambda rnd: (rnd.choice(['1.5', '', 'x', '-2.25', '1e5', 'nan', 'inf', '1_0.5', ' 3 ', '0x10', '١.٥']),))
+
+
+@contract('core.matcher._parse_string_matcher')
+def _(c):
+    c.prop('C18')
+    c.types(text='str').returns(M_)
+    c.raises('RuntimeError', when=None, exact=False)
+    c.ensures('fresh(result)')
+    c.modifies('new')
+    c.native_gen(lambda rnd: (rnd.choice(['"a"', '""', '"', '', 'a', '"a', 'a"', '"x, y"', '"é"']),))
+
+
+# ---- the rest of the recursive-descent parser: exception safety with three pieces assumed (list comprehensions over a callable parameter,
+# ---- a regular expression): everything else is executed symbolically
+@contract('core.matcher._parse_matcher_list')
+def _(c):
+    c.trusted('two list comprehensions applying the sub-parser to the sections of _split_on (callable parameter: outside the verifier): a new matcher - when it is a '
+              'MatcherList its two lists are new and distinct - or the RuntimeError of _split_pair / _split_on / the sub-parser, which is one of the parsers below')
+    c.types(text='str', sub_parser='Func').returns(M_)
+    c.raises('RuntimeError', when=None, exact=False)
+    c.ensures('fresh(result)')
+    c.ensures('(not isinstance(result, MatcherList)) or (fresh(cast(MatcherList, result).positive) and fresh(cast(MatcherList, result).negative) and '
+              'cast(MatcherList, result).positive is not cast(MatcherList, result).negative)', 'lists_of_the_result_are_new')
+    c.modifies('new')
+    c.epoch_preserving()
+
+
+@contract('core.matcher._parse_args_list')
+def _(c):
+    c.trusted('two list comprehensions applying _parse_arg_matcher to the sections of _split_on: a new matcher or RuntimeError')
+    c.types(text='str').returns(M_)
+    c.raises('RuntimeError', when=None, exact=False)
+    c.ensures('fresh(result)')
+    c.modifies('new')
+    c.epoch_preserving()
+
+
+@contract('core.matcher.identifier_matcher')
+def _(c):
+    c.trusted('regular expression test of the identifier alphabet, then str_matcher: a new matcher or RuntimeError')
+    c.types(pattern='str').returns(M_)
+    c.raises('RuntimeError', when=None, exact=False)
+    c.ensures('fresh(result)')
+    c.modifies('new')
+    c.epoch_preserving()
+
+
+@contract('core.util.no_color')
+def _(c):
+    c.external('re.sub of the SGR escape pattern: a string, no exception (its meaning is C17)')
+    c.types(string='str').returns('str')
+    c.epoch_preserving()
+
+
+for _q in ('core.matcher.WrapMatcher.__init__', 'core.matcher.MessagePattern.__init__', 'core.matcher.ArgMatcher.__init__', 'core.matcher.ArgsMatcherList.__init__'):
+    @contract(_q)
+    def _(c): c.inline()
+
+
+def _parser_contract(q, texts):
+    @contract(q)
+    def _(c):
+        c.prop('C18')
+        c.types(text='str').returns(M_)
+        c.raises('RuntimeError', when=None, exact=False)
+        c.ensures('fresh(result)')
+        c.modifies('new')
+        c.merge_paths_at_exit()
+        c.native_gen(lambda rnd: (rnd.choice(texts),))
+
+
+_parser_contract('core.matcher._parse_text_matcher', ['', '*', 'wl_*', '[a, b]', '[a', 'a b', 'é', '[a ! b]', 'x,y'])
+_parser_contract('core.matcher._parse_obj_matcher', ['', 'nil', '5', '5a', 'wl_surface', 'wl_surface@5', '@5', '#a', 'wl_surface@', '[5, 6a ! wl_*]', '[', 'a@b@c', '@', '٣', 'é@1'])
+_parser_contract('core.matcher._parse_arg_matcher', ['', 'x=0', '=', 'x=', '[x=0, y]', '[x]=[0]', 'a=b=c', '"a"', 'nil', '[', 'x=[', '1.5', '*'])
+_parser_contract('core.matcher._parse_arg_value_matcher', ['', '0', '1.5', '"a"', 'pressed', 'nil', '[0, 1 ! 2]', '[', 'a b', '@', 'x@5', '5a', '*', '-', '"'])
+_parser_contract('core.matcher._parse_message_pattern', ['', '*', 'wl_surface', '.commit', 'A: wl_surface.commit(x=0)', 'a.b.c', 'a(b', 'a(b)c', 'A:B:c', '(', '[wl_surface, 5].x', ':', '.', '()', 'x(!)'])
